@@ -39,6 +39,81 @@ fn cap_of(c: i128) -> LineCap {
 ///   far: touched pixel farther than `reach` from the path;  gaps: path point inside the pixmap without a
 ///   touched pixel within `reach`;  clip_dependence: pixels that differ from the same path drawn on a pixmap
 ///   3x as large and cropped (0 when far = 0: only computed if far != 0 argument)
+/// coverage difference between the clipped and the unclipped drawing that counts as a dependence
+const COVERAGE_DEP: i32 = 96;
+
+/// The known fold finding: a mostly-horizontal segment that is above y = 0.5 somewhere over the pixmap's columns (or a
+/// mostly-vertical one left of x = 0.5 somewhere over its rows) has its running coordinate clamped to 0 by the anti-hairline
+/// blitters, which displaces the remainder of that segment.  tiny-skia's own segments (curve chords) are not known here, so
+/// the test is conservative: true when a piece of the outline within 2.5 px of (px, py) belongs to a run of consecutive
+/// mostly-horizontal (mostly-vertical) pieces that reaches y < 1 (x < 1) over the pixmap.
+fn near_fold_segment(cs: &[Vec<oracle::P>], px: f64, py: f64, w: f64, h: f64) -> bool {
+    let slack = 1.0 / 16.0;
+    // smallest v-coordinate of the part of the segment whose u-coordinate lies in [-1.5, n + 1.5]
+    let low = |u0: f64, v0: f64, u1: f64, v1: f64, n: f64| -> f64 {
+        let (lo, hi) = (-1.5, n + 1.5);
+        if (u0 < lo && u1 < lo) || (u0 > hi && u1 > hi) {
+            return f64::INFINITY;
+        }
+        let at = |u: f64| if u1 == u0 { v0.min(v1) } else { v0 + (u - u0) / (u1 - u0) * (v1 - v0) };
+        let (ua, ub) = (u0.max(lo).min(hi), u1.max(lo).min(hi));
+        at(ua).min(at(ub))
+    };
+    for c in cs {
+        let n = c.len() - 1;
+        let seg = |k: usize| (c[k].fx, c[k].fy, c[k + 1].fx, c[k + 1].fy);
+        let horish = |k: usize| { let (ax, ay, bx, by) = seg(k); (bx - ax).abs() + slack >= (by - ay).abs() };
+        let vertish = |k: usize| { let (ax, ay, bx, by) = seg(k); (by - ay).abs() + slack >= (bx - ax).abs() };
+        let folds_h = |k: usize| { let (ax, ay, bx, by) = seg(k); low(ax, ay, bx, by, w) < 1.0 };
+        let folds_v = |k: usize| { let (ax, ay, bx, by) = seg(k); low(ay, ax, by, bx, h) < 1.0 };
+        for k in 0..n {
+            let (ax, ay, bx, by) = seg(k);
+            let (dx, dy) = (bx - ax, by - ay);
+            let l2 = dx * dx + dy * dy;
+            let t = if l2 == 0.0 { 0.0 } else { (((px - ax) * dx + (py - ay) * dy) / l2).max(0.0).min(1.0) };
+            let (qx, qy) = (ax + t * dx, ay + t * dy);
+            if ((px - qx).powi(2) + (py - qy).powi(2)).sqrt() > 2.5 {
+                continue;
+            }
+            for pass in 0..2 {
+                let (is, folds): (&dyn Fn(usize) -> bool, &dyn Fn(usize) -> bool) =
+                    if pass == 0 { (&horish, &folds_h) } else { (&vertish, &folds_v) };
+                if !is(k) {
+                    continue;
+                }
+                let mut j = k;
+                loop {
+                    if folds(j) { return true; }
+                    if j == 0 || !is(j - 1) { break; }
+                    j -= 1;
+                }
+                let mut j = k;
+                while j + 1 < n && is(j + 1) {
+                    j += 1;
+                    if folds(j) { return true; }
+                }
+            }
+        }
+    }
+    false
+}
+
+fn near_diagonal_piece(cs: &[Vec<oracle::P>], px: f64, py: f64) -> bool {
+    for c in cs {
+        for k in 0..c.len() - 1 {
+            let (ax, ay, bx, by) = (c[k].fx, c[k].fy, c[k + 1].fx, c[k + 1].fy);
+            let (dx, dy) = (bx - ax, by - ay);
+            let l2 = dx * dx + dy * dy;
+            let t = if l2 == 0.0 { 0.0 } else { (((px - ax) * dx + (py - ay) * dy) / l2).max(0.0).min(1.0) };
+            let (qx, qy) = (ax + t * dx, ay + t * dy);
+            if ((px - qx).powi(2) + (py - qy).powi(2)).sqrt() <= 4.0 && (dx.abs() - dy.abs()).abs() <= 0.12 * dx.abs().max(dy.abs()) {
+                return true;
+            }
+        }
+    }
+    false
+}
+
 pub fn run_hair_px(l: &[i128]) -> Vec<i128> {
     if l.len() < 12 {
         return vec![-3];
@@ -145,6 +220,7 @@ pub fn run_hair_px(l: &[i128]) -> Vec<i128> {
     }
     // independence from what the path does outside: draw on a 3x pixmap with the path shifted, crop, compare
     let mut dep = 0i128;
+    let mut dep2 = 0i128;
     if check_crop && w <= 64 && h <= 64 {
         let mut big = Pixmap::new(3 * w, 3 * h).unwrap();
         let t2 = t.post_translate(w as f32, h as f32);
@@ -164,10 +240,24 @@ pub fn run_hair_px(l: &[i128]) -> Vec<i128> {
                         }
                     }
                 }
+                // anti-aliased: the coverage itself must not depend on the part outside (a displaced line changes the
+                // split of coverage between neighbouring pixels long before it leaves the proximity band); the first
+                // rows / columns belong to the known fold finding, the last ones see the other clip edge
+                if aa && x > 2 && y > 2 && x + 3 < w && y + 3 < h && (a as i32 - b as i32).abs() >= COVERAGE_DEP {
+                    if near_fold_segment(&cs, x as f64 + 0.5, y as f64 + 0.5, w as f64, h as f64) {
+                        edge_bad += 1;
+                    } else if near_diagonal_piece(&cs, x as f64 + 0.5, y as f64 + 0.5) {
+                        // a segment at 45 degrees is drawn by the mostly-horizontal or by the mostly-vertical blitter
+                        // depending on the last bit of its deltas, which the translation of the reference drawing may
+                        // change: the two blitters split the same coverage between different neighbours
+                    } else {
+                        dep2 += 1;
+                    }
+                }
             }
         }
     }
-    vec![touched, far, gaps, first[0], first[1], first[2], dep, edge_bad]
+    vec![touched, far, gaps, first[0], first[1], first[2], dep, edge_bad, dep2]
 }
 
 /// args: x0 y0 x1 y1 l t r b (bit patterns) -> -1 | -2 | the clipped end points (line_clipper::intersect)
